@@ -82,6 +82,9 @@ def generate(prop, rng, index, tier):
                 actor.append({"do": "rename-header", "col": rng.randrange(ncols), "to": rng.choice(["zz", "A ", "a"])})
             elif k < 0.74:
                 actor.append({"do": "blank-after", "row": rng.randrange(nrows + 1)})
+            elif k < 0.77:
+                # one row has a cell more than the header (a trailing delimiter, a remark): the columns are all there
+                actor.append({"do": "extra-cell", "row": rng.randrange(nrows), "text": rng.choice(["", "note", "7"])})
             elif k < 0.8:
                 # blank lines in front of the header, or a byte-order mark (what spreadsheet programs put in front of UTF-8)
                 actor.append({"do": rng.choice(["blank-before-header", "byte-order-mark"]), "n": rng.randint(1, 2)})
@@ -99,7 +102,7 @@ def generate(prop, rng, index, tier):
                 rd["missing"] = rng.choice(present)
             else:
                 rd["missing"] = rng.choice([-9999, _hex(-9999.5), _hex(1e20)]) if c["dtype"] == "float" else \
-                    rng.choice([-77777, -77777, 10 ** 20, 2 ** 63, _hex(1e20)])      # (numpy's default fill value is 1e20)
+                    rng.choice([-77777, -77777, 10 ** 20, 2 ** 63, _hex(1e20), 2 ** 53 + 1])  # (numpy's default fill value is 1e20)
         r = rng.random()
         if r < 0.3:
             rd["dtype"] = "Float"
@@ -292,6 +295,10 @@ def execute(sc):
                             row_line[k] += 1
                 elif a["do"] == "append-blank":
                     lines.extend([""] * a["n"])
+                elif a["do"] == "extra-cell" and nrows:
+                    li = row_line[a["row"] % nrows]
+                    if lines[li].strip(","):
+                        lines[li] = lines[li] + "," + a["text"]
                 elif a["do"] == "blank-before-header":
                     if lines and not lines[0].startswith("\ufeff"):
                         lines[0] = "\n" * a["n"] + lines[0]      # (kept inside element 0: the header record spans lines)
@@ -434,7 +441,9 @@ def _judge_read(res, c, name, rd, mv, got, err, head_names, bad_cells, row_line,
     data = numpy.ma.getdata(got)
     for r in range(nrows):
         v = _val(c["values"][r])
-        is_missing = mv is not None and float(v) == float(mv)
+        # (an Integer read compares integers: above 2**53 neighbouring integers are one double)
+        is_missing = mv is not None and ((int(v) == int(mv)) if want_int and isinstance(v, int) and isinstance(mv, int)
+                                         else float(v) == float(mv))
         if bool(mask[r]) != is_missing:
             res.violate("C17.mask", "C17.mask %s" % ("cell-not-masked" if is_missing else "cell-wrongly-masked"),
                         "column %r row %d value %r, missing value %r: mask is %r" % (name, r, v, mv, bool(mask[r])))
